@@ -20,5 +20,6 @@ func main() {
 	c.Meta.Corr = []string{
 		"NodePool.Hash() equality on template pairs = C15.Model.same_hash (symbolic hashstructure walk over the regenerated field table)",
 	}
-	c.Finish("From KV Require Import C15.Types C15.Model C15.Check.", "case", "check_all", 700)
+	c.Finish(shardHeader(), "case", "check_all", 450)
+	cons.rewriteShards(c.Out, c.Meta.Shards)
 }
